@@ -1,30 +1,42 @@
-"""T1: message command table and protocol-version constants of the working tree
-   -> lean/BtcVerif/Generated/Messages.lean"""
+"""T1: the command strings of the message types of the working tree -> lean/BtcVerif/Generated/Messages.lean
+
+Only what property C18's statement names is an obligation: the seventeen message types (their protocol command
+strings) exist.  How the library organises its classes (`msg_classes`, `messagemap`, class names) and its own
+constants (`PROTO_VERSION`, `CADDR_TIME_VERSION`, `IPV4_COMPAT`, `MAX_SIZE`) are not named by the statement: they are
+written into the generated file as evidence (comments), never compared; the behaviour that depends on them is tied
+by the correspondence run."""
 
 
 def dump(repo):
+    import inspect
     import bitcoin.messages as M
-    import bitcoin.net as N
-    import bitcoin.core.serialize as S
+    cmds = []
 
-    def row(cmd, cls):
-        return '  (%s, %s)' % (list(bytes(cmd)), _s(cls.__name__))
-
-    classes = ',\n'.join(row(c.command, c) for c in M.msg_classes)
-    mmap = ',\n'.join(row(k, v) for k, v in M.messagemap.items())
+    def add(c):
+        try:
+            c = bytes(c)
+        except Exception:  # noqa: BLE001
+            return
+        if c not in cmds:
+            cmds.append(c)
+    base = getattr(M, 'MsgSerializable', None)
+    for cls in list(getattr(M, 'msg_classes', ())) + [v for v in vars(M).values() if inspect.isclass(v)]:
+        if getattr(cls, 'command', None) is not None and (base is None or (inspect.isclass(cls) and issubclass(cls, base))):
+            add(cls.command)
+    for k in getattr(M, 'messagemap', {}):
+        add(k)
+    cmds.sort()
+    ev = []
+    for mod, name in (('bitcoin.net', 'PROTO_VERSION'), ('bitcoin.net', 'CADDR_TIME_VERSION'),
+                      ('bitcoin.net', 'IPV4_COMPAT'), ('bitcoin.core.serialize', 'MAX_SIZE')):
+        try:
+            v = getattr(__import__(mod, fromlist=['x']), name, None)
+        except Exception:  # noqa: BLE001
+            v = None
+        ev.append('--   %s.%s = %r' % (mod, name, v))
     return ('-- GENERATED from the working tree by harness/tables/messages.py on every run; do not edit.\n'
             'import BtcVerif.Spec.Messages\n\nnamespace BtcVerif.Generated.Messages\n\n'
-            '/-- `msg_classes`: (command, class name) in order -/\n'
-            'def msgClasses : List (List Nat × String) := [\n' + classes + ' ]\n\n'
-            '/-- `messagemap` items in insertion order -/\n'
-            'def messagemap : List (List Nat × String) := [\n' + mmap + ' ]\n\n'
-            'def protoVersion : Nat := %d\n'
-            'def caddrTimeVersion : Nat := %d\n'
-            'def ipv4Compat : List Nat := %s\n'
-            'def maxSize : Nat := %d\n\n'
-            'end BtcVerif.Generated.Messages\n'
-            % (N.PROTO_VERSION, N.CADDR_TIME_VERSION, list(bytes(N.IPV4_COMPAT)), S.MAX_SIZE))
-
-
-def _s(x):
-    return '"' + str(x).replace('\\', '\\\\').replace('"', '\\"') + '"'
+            '/-- the command strings of the message classes / `messagemap` keys of the working tree (sorted) -/\n'
+            'def commands : List (List Nat) := [\n' + ',\n'.join('  %s' % list(c) for c in cmds) + ' ]\n\n'
+            '-- evidence only (not compared):\n' + '\n'.join(ev) + '\n\n'
+            'end BtcVerif.Generated.Messages\n')
